@@ -367,10 +367,35 @@ def process_fn(asm, f, unit):
         ed.insert(ct[ob].start, "\n" + inv.strip() + "\n", "invariant")
     # --- closures
     cls = fp.closures()
+    def _closure_key(tok_i):
+        """name of the component![..] entry (`"name" => ...`) the closure belongs to, if any"""
+        for j in range(tok_i - 1, fp.i_brace, -1):
+            if ct[j].text == "=>" and ct[j - 1].kind == "str":
+                return ct[j - 1].text
+        return "<none>"
+    ckeys = [_closure_key(c[0]) for c in cls]
+    crec = ANCHOR_OUT.setdefault(unit.name, {}).setdefault(f.qname(), {"lines": [], "hints": {}, "claims": {}})
+    crec["closures"] = {}
+    cbase = (ANCHOR_BASE.get(unit.name, {}).get(f.qname()) or {}).get("closures", {})
     for n, ann in f.closures.items():
-        if n < 1 or n > len(cls):
+        idx = n - 1
+        want = cbase.get(str(n))
+        if want is not None and (idx >= len(cls) or idx < 0 or ckeys[idx] != want):
+            # the closures of the function were re-numbered (one added / removed): follow the component key recorded in the baseline
+            cands = [k for k, key in enumerate(ckeys) if key == want]
+            if len(cands) == 1:
+                idx = cands[0]
+                asm.rewrites.append(("closure contract #%d re-attached by component key %s" % (n, want), "%s %s" % (f.file, f.name)))
+            elif len(cands) == 0:
+                # the annotated closure no longer exists: its contract has nothing to attach to (the function is verified without it)
+                asm.rewrites.append(("closure contract #%d dropped: the closure (key %s) is gone" % (n, want), "%s %s" % (f.file, f.name)))
+                continue
+            else:
+                raise LostAnchor("%s::%s: closure #%d (key %s) is ambiguous" % (f.file, f.name, n, want))
+        if idx < 0 or idx >= len(cls):
             raise LostAnchor("%s::%s: closure #%d not found (%d closures)" % (f.file, f.name, n, len(cls)))
-        b0, b1, s, e = cls[n - 1]
+        crec["closures"][str(n)] = ckeys[idx]
+        b0, b1, s, e = cls[idx]
         params = ann.get("params", "")
         ed.replace(ct[b0].start, ct[b1].end, "|%s| %s %s " % (params, ann.get("ret", ""), ann.get("spec", "")), "closure-contract")
         if ct[s].text != "{":
